@@ -99,7 +99,7 @@ package funnel
 //verif:loop 0 decreases len(acks) - j
 
 //verif:func (*DestinationTask).Do(t, ctx, batch) (err)
-//verif:requires BLens(batch)
+//verif:requires BInv(batch) && slack(batch) == 0
 //verif:ensures[ack-coverage] err == nil ==> ackCount == len(positions)
 //verif:call[write-active] Destination.Write requires arg1 == result_of("(*Batch).ActiveRecords", 0)
 //verif:loop 1 invariant 0 <= ackCount && ackCount <= len(positions) && len(positions) == len(records)
@@ -111,6 +111,8 @@ package funnel
 //verif:ensures[lens] BLens(b) && len(b.records) == len(records) && b.filterCount == 0 && !b.tainted && b.records == records
 //verif:ensures[statuses] forall k in [0, len(records)): b.recordStatuses[k].Flag == RecordFlagAck && b.recordStatuses[k].Error == nil
 //verif:ensures[positions] forall k in [0, len(records)): b.positions[k] == records[k].Position
+//verif:ensures[nothing-filtered] nfilt(b) == 0 && BInv(b)
+//verif:hint lemma_cntf_none(heapof(b.recordStatuses, "Flag"), base(b.recordStatuses), off(b.recordStatuses), len(b.recordStatuses))
 //verif:modifies nothing
 //verif:loop 0 vars j
 //verif:loop 0 invariant j < len(records) && len(positions) == len(records) && forall k in [0, j+1): positions[k] == records[k].Position
@@ -127,8 +129,11 @@ package funnel
 //verif:ensures[window] sameWindow(s.records, b.records, from, to) && sameWindow(s.positions, b.positions, from, to) && sameWindow(s.recordStatuses, b.recordStatuses, from, to)
 //verif:ensures[clipped] cap(s.records) == to - from && cap(s.positions) == to - from && cap(s.recordStatuses) == to - from
 //verif:ensures[lens] len(s.records) == to - from && len(s.positions) == to - from && len(s.recordStatuses) == to - from && BLens(s)
+//verif:ensures[recounted] BInv(b) ==> s.filterCount == nfilt(s) && BInv(s)
 //verif:loop 0 vars fc, j
-//verif:loop 0 invariant 0 <= fc && fc <= j + 1 && j < to - from
+//verif:loop 0 invariant 0 <= fc && fc <= j + 1 && j < to - from && fc == cntf(heapof(b.recordStatuses, "Flag"), base(b.recordStatuses), off(b.recordStatuses) + from, j + 1)
+//verif:loop 0 hint lemma_cntf_next(heapof(b.recordStatuses, "Flag"), base(b.recordStatuses), off(b.recordStatuses) + from, j + 1)
+//verif:hint lemma_cntf_window(heapof(b.recordStatuses, "Flag"), base(b.recordStatuses), off(b.recordStatuses), from, to - from)
 //verif:modifies nothing
 
 // ---- Worker.Ack / Worker.Nack (C01, C02, C04, C07) ----------------------------
@@ -209,8 +214,8 @@ package funnel
 //verif:loop 0 hint lemma_cntf_next(heapof(b.recordStatuses, "Flag"), base(b.recordStatuses), off(b.recordStatuses), j + 1)
 
 //verif:func (*Batch).SetRecords(b, i, recs)
-//verif:requires BLens(b) && 0 <= i && i + len(recs) <= active(b)
-//verif:ensures[shape] BLens(b) && len(b.records) == old(len(b.records)) && b.filterCount == old(b.filterCount)
+//verif:requires BInv(b) && 0 <= i && i + len(recs) <= active(b)
+//verif:ensures[shape] BInv(b) && len(b.records) == old(len(b.records)) && b.filterCount == old(b.filterCount) && nfilt(b) == old(nfilt(b))
 
 //verif:func (*Batch).Filter(b, i, j)
 //verif:requires BInv(b) && 0 <= i && len(j) <= 1 && (len(j) == 0 ==> i < active(b)) && (len(j) == 1 ==> i < j[0] && j[0] <= active(b))
@@ -265,27 +270,27 @@ package funnel
 //verif:loop 1 invariant i < to && to <= len(b.positions) && forall p in [i + 1, to): isnil(b.positions[p])
 
 //verif:func (*Batch).SplitRecord(b, i, recs)
-//verif:requires BLens(b) && 0 <= i && i < active(b) && len(recs) >= 2
-//verif:ensures[shape] BLens(b) && len(b.records) == old(len(b.records)) + len(recs) - 1 && b.filterCount == old(b.filterCount)
+//verif:requires BInv(b) && 0 <= i && i < active(b) && len(recs) >= 2
+//verif:ensures[shape] BInv(b) && len(b.records) == old(len(b.records)) + len(recs) - 1 && b.filterCount == old(b.filterCount) && nfilt(b) == old(nfilt(b))
 
 // ---- ProcessorTask (C08, C09) -------------------------------------------------------
 // Whatever the processor returns, results are mapped onto existing active records
 // only: every marked range lies inside [0, active).
 //verif:func (*ProcessorTask).Do(t, ctx, b) (err)
-//verif:requires BLens(b)
-//verif:call[ranges-inside-the-batch] (*ProcessorTask).markBatchRecords requires arg1 == b && 0 <= arg2 && arg2 + len(arg3) <= active(b) && BLens(b) && forall k in [0, len(arg3)): sameKind(arg3[k], arg3[0])
-//verif:loop 0 invariant BLens(b) && 0 - 1 <= i && i < to && to <= len(recsOut) && to <= active(b)
+//verif:requires BInv(b) && slack(b) == 0
+//verif:call[ranges-inside-the-batch] (*ProcessorTask).markBatchRecords requires arg1 == b && 0 <= arg2 && arg2 + len(arg3) <= active(b) && BInv(b) && forall k in [0, len(arg3)): sameKind(arg3[k], arg3[0])
+//verif:loop 0 invariant BInv(b) && 0 - 1 <= i && i < to && to <= len(recsOut) && to <= active(b)
 //verif:loop 0 invariant (forall k in [i + 1, to): sameKind(recsOut[k], recsOut[i + 1])) && (0 <= i && i + 1 < to ==> sameKind(recsOut[i], recsOut[i + 1]))
 
 //verif:func (*ProcessorTask).markBatchRecords(t, b, from, records)
-//verif:requires BLens(b) && 0 <= from && from + len(records) <= active(b) && forall k in [0, len(records)): sameKind(records[k], records[0])
-//verif:ensures[shape] BLens(b)
+//verif:requires BInv(b) && 0 <= from && from + len(records) <= active(b) && forall k in [0, len(records)): sameKind(records[k], records[0])
+//verif:ensures[shape] BInv(b)
 //verif:ensures[active] active(b) >= old(active(b)) - len(records)
 //verif:loop 0 vars j0=rangeindex
 //verif:loop 0 invariant j0 < len(records) && len(recs) == len(records)
 //verif:loop 1 vars j1=rangeindex
 //verif:loop 1 invariant j1 < len(records) && len(errs) == len(records)
-//verif:loop 2 invariant BLens(b) && 0 - 1 <= i && i < len(records) && from + i + 1 <= active(b) && active(b) >= old(active(b)) - (len(records) - 1 - i)
+//verif:loop 2 invariant BInv(b) && 0 - 1 <= i && i < len(records) && from + i + 1 <= active(b) && active(b) >= old(active(b)) - (len(records) - 1 - i)
 
 //verif:func (*ProcessorTask).isSameType(t, a, b) (r)
 //verif:ensures[same] r ==> sameKind(a, b)
@@ -360,3 +365,21 @@ package funnel
 //verif:loop 1 invariant nfilt(b) == old(nfilt(b)) + ite(f == RecordFlagFilter, k - i, 0)
 //verif:loop 0 invariant i <= k && k <= j[0] && forall p in [0, len(b.recordStatuses)): b.recordStatuses[p].Flag == ite(i <= p && p < k, f, old(b.recordStatuses[p].Flag))
 //verif:loop 1 invariant i <= k && k <= j[0] && forall p in [0, len(b.recordStatuses)): b.recordStatuses[p].Flag == ite(old(b.recordStatuses[p].Flag) != RecordFlagFilter && i <= p - old(nfiltTo(b, p)) && p - old(nfiltTo(b, p)) < k, f, old(b.recordStatuses[p].Flag))
+
+// ---- C05 / C08: a tainted batch is cut left to right into maximal runs of one class ----
+// (Ack and Filter form one class).  The sub-batch starts exactly at firstIndex, is a
+// window of the parent (same records, positions, statuses, in order), is as long as the
+// run of that class and not longer, and its filter count is recounted exactly.
+//verif:def sameClass(x, y) = x == y || (x == RecordFlagAck || x == RecordFlagFilter) && (y == RecordFlagAck || y == RecordFlagFilter)
+//verif:func (*Worker).subBatchByFlag(w, b, firstIndex) (s)
+//verif:requires BInv(b) && 0 <= firstIndex
+//verif:modifies nothing
+//verif:ensures[nil-at-end] (firstIndex >= len(b.recordStatuses)) == (s == nil)
+//verif:ensures[window] s != nil ==> len(s.records) >= 1 && firstIndex + len(s.records) <= len(b.records) && sameWindow(s.records, b.records, firstIndex, firstIndex + len(s.records)) && sameWindow(s.positions, b.positions, firstIndex, firstIndex + len(s.records)) && sameWindow(s.recordStatuses, b.recordStatuses, firstIndex, firstIndex + len(s.records)) && BInv(s) && slack(s) == 0
+//verif:ensures[one-class] s != nil ==> forall k in [firstIndex, firstIndex + len(s.records)): sameClass(b.recordStatuses[k].Flag, b.recordStatuses[firstIndex].Flag)
+//verif:ensures[maximal] s != nil && firstIndex + len(s.records) < len(b.records) ==> !sameClass(b.recordStatuses[firstIndex + len(s.records)].Flag, b.recordStatuses[firstIndex].Flag)
+//verif:loop 0 vars lastIndex, j=rangeindex
+//verif:loop 0 invariant lastIndex == firstIndex + j + 1 && j < len(b.recordStatuses) - firstIndex && 1 <= len(flags) && len(flags) <= 2 && flags[0] == b.recordStatuses[firstIndex].Flag && (len(flags) == 2 ==> (flags[0] == RecordFlagAck && flags[1] == RecordFlagFilter || flags[0] == RecordFlagFilter && flags[1] == RecordFlagAck)) && (len(flags) == 1 ==> flags[0] != RecordFlagAck && flags[0] != RecordFlagFilter)
+//verif:loop 0 invariant forall k in [firstIndex, lastIndex): sameClass(b.recordStatuses[k].Flag, b.recordStatuses[firstIndex].Flag)
+//verif:loop 1 vars m=rangeindex
+//verif:loop 1 invariant m < len(flags) && forall q in [0, m + 1): status.Flag != flags[q]
